@@ -37,4 +37,4 @@ require (
 	gopkg.in/yaml.v3 v3.0.1 // indirect
 )
 
-replace github.com/coredhcp/coredhcp => /repo
+replace github.com/coredhcp/coredhcp => /tmp/wtu-main
